@@ -47,9 +47,13 @@ package localfs
 //@ modifies nothing
 //@ ensures[C13.lfs.resolve] err == nil ==> confined(fs.base, result)
 
+// A filesystem that was given a base stays rooted: New itself never stores an empty base (an empty base is the marker
+// of an unrooted filesystem, for which ResolvePath passes absolute paths through), only the cleaned form of the base
+// the options set.
 //@ func New
 //@ props C13
 //@ ensures[C13.lfs.new] err == nil ==> result != nil && (result.base == "" || isclean(result.base))
+//@ storeguard[C13.lfs.new.rooted] Filesystem.base: value != ""
 
 //@ func (*Filesystem).Create
 //@ props C13
